@@ -164,6 +164,28 @@ def resize1d (mode : Mode) (dir : Dir) (nIn nOut off : Nat) (c : K) (arr : Nat â
 
 end oneAxis
 
+/-! ### `ResizingOperator.adjoint` on spaces with fractional boundary cells -/
+section opAdjoint
+variable {K : Type} [Zero K] [Add K] [Sub K] [Mul K] [Div K] [IntCast K] [DecidableEq K]
+
+/-- Relative weight of the cells of one axis of length `n` in `DiscretizedSpace.inner`:
+`fl` for the first and `fr` for the last cell (`partition.boundary_cell_fractions`, `1/2` for a
+node on the boundary), `one` inside; a single cell gets both factors (`apply_on_boundary` with
+`only_once=False`). -/
+def bdryFrac (one : K) (n : Nat) (fl fr : K) : Nat â†’ K :=
+  fun i => (if i = 0 then fl else one) * (if i + 1 = n then fr else one)
+
+/-- `ResizingOperatorAdjoint._call` (one axis): scale the argument by the boundary-cell
+fractions `wr` of the range, apply `resize_array(..., direction='adjoint')`, divide by the
+fractions `wd` of the domain. -/
+def opAdjoint1d (mode : Mode) (m n off : Nat) (wr wd : Nat â†’ K) (y : Nat â†’ K) :
+    Except Err (Nat â†’ K) :=
+  match resize1d mode .adjoint m n off 0 (fun i => wr i * y i) with
+  | .ok r => .ok (fun j => r j / wd j)
+  | .error e => .error e
+
+end opAdjoint
+
 /-! ### NumPy's padding as index formulas (the reference the property names) -/
 section reference
 variable {K : Type}
